@@ -2,6 +2,7 @@ package main
 
 import (
 	"fmt"
+	"strconv"
 	"strings"
 	"unicode/utf8"
 
@@ -250,6 +251,9 @@ func streamUnmarshal(r *hx.Rng, cfs []*cfile, bs *builtSet) {
 				}
 			}
 			failCtx.suffix = ""
+		}
+		if prop == "C08" {
+			deepNesting(r, cfs, bv)
 		}
 		for i, u := range cases {
 			resp := resps[i]
@@ -624,4 +628,78 @@ func nonMinimalUnknownKey(md protoreflect.MessageDescriptor, b []byte) bool {
 		b = b[n+k:]
 	}
 	return false
+}
+
+// C08, "without allocating memory out of proportion to the input", where the proportion itself may degrade: inputs nested
+// hundreds to thousands of levels deep through every self-referential singular message field of the corpus. The yardstick is
+// what the owning runtime's own decoder allocates for the same input into the same Go type.
+func deepNesting(r *hx.Rng, cfs []*cfile, bv *builtVariant) {
+	depths := []int{150, 1500}
+	if thorough {
+		depths = []int{150, 1500, 5000}
+	}
+	type dcase struct {
+		md    protoreflect.MessageDescriptor
+		depth int
+		n     int
+	}
+	var reqs []string
+	var cs []dcase
+	for _, c := range cfs {
+		if !bv.OK[c.F.Base] {
+			continue
+		}
+		for _, md := range c.messages() {
+			for i := 0; i < md.Fields().Len(); i++ {
+				fd := md.Fields().Get(i)
+				if fd.Message() == nil || fd.Message().FullName() != md.FullName() || fd.IsList() || fd.IsMap() || fd.Kind() == protoreflect.GroupKind {
+					continue
+				}
+				base := dynamicpb.NewMessage(md)
+				fillRequired(r, base, 1)
+				inner := canonical(base)
+				for _, d := range depths {
+					in := append([]byte{}, inner...)
+					for k := 0; k < d; k++ {
+						// each level: the required fields of the level (if any), then the child
+						lvl := append([]byte{}, inner...)
+						lvl = protowire.AppendTag(lvl, fd.Number(), protowire.BytesType)
+						lvl = protowire.AppendBytes(lvl, in)
+						in = lvl
+					}
+					reqs = append(reqs, fmt.Sprintf("UA %s %s", md.FullName(), hx.B(in)))
+					cs = append(cs, dcase{md, d, len(in)})
+				}
+			}
+		}
+	}
+	if len(reqs) == 0 {
+		return
+	}
+	resps, derr := runDriver(bv.Driver, reqs)
+	if derr != nil {
+		fail("the driver process running generated code died on a deeply nested input", bv.V.Name(), "all requests answered", derr.Error(), "driver-died")
+	}
+	for i, c := range cs {
+		f := strings.Split(resps[i], " ")
+		sink.OracleN++
+		sink.Count("deep-nesting-alloc")
+		desc := fmt.Sprintf("variant=%s type=%s self-nested %d levels deep (%d input bytes)", bv.V.Name(), c.md.FullName(), c.depth, c.n)
+		if len(f) != 4 {
+			if resps[i] != "driver-died" {
+				fail("driver could not run the case", desc, "", resps[i], "driver-error")
+			}
+			continue
+		}
+		if f[0] == "panic" {
+			fail("generated Unmarshal panicked on a deeply nested input", desc, "error or message", resps[i], "um-panic")
+			continue
+		}
+		gen, _ := strconv.ParseUint(f[1], 10, 64)
+		ref, _ := strconv.ParseUint(f[3], 10, 64)
+		if f[2] == "ok" && gen > 8*ref+64*uint64(c.n)+(256<<10) {
+			fail("generated Unmarshal allocates out of proportion to the input on a deeply nested message (yardstick: the owning runtime's own decoder on the same input)",
+				desc, fmt.Sprintf("at most 8 x %d + 64 x %d + 256KiB bytes", ref, c.n), fmt.Sprintf("%d bytes allocated", gen), "um-alloc-deep")
+		}
+	}
 }
